@@ -191,3 +191,21 @@ func HarnessC08_Handshake() {
 	}
 	vReach("handshake-io")
 }
+
+// HarnessC08_WritePacketFail: a failed transport write fails WritePacket for every packet
+// kind, including the requests whose transaction is registered.
+func HarnessC08_WritePacketFail() {
+	d := newDuplex()
+	d.out.failAt = 0
+	d.out.failN = vChoice(3)
+	d.out.failErr = errTransport
+	p := NewProtocol(d)
+	kinds := []int{0, 2, 4, 8, 11}
+	pkt, _, _, name := genPacket(kinds[vChoice(len(kinds))])
+	err := p.WritePacket(pkt, vChoice(2))
+	vAssert(err != nil, name+": a failed transport write fails WritePacket")
+	if err != nil {
+		vAssert(oe.Cause(err) == error(errTransport), name+": WritePacket keeps the transport's error as root cause")
+	}
+	vReach("writepacket-fail")
+}
